@@ -1,7 +1,8 @@
 (* Proofs for C01: the cursor-walking overlay model computes the by-name
    n-ary stacking specification. *)
 From Coq Require Import List NArith ZArith Bool Lia.
-From Dials Require Import Base.Outcome Base.Runes Reflect.Ty Reflect.Ptrify Stack.Overlay Stack.StackSpec Stack.Spine.
+From Dials Require Import Base.Outcome Base.Runes Reflect.Ty Reflect.Ptrify Stack.Overlay Stack.StackSpec Stack.Spine
+  Stack.SelfPtrified.
 Import ListNotations.
 
 (* ---- reflexivity of the boolean type equality ---- *)
@@ -100,6 +101,70 @@ Proof.
   - left. subst. apply str_eqb_refl.
 Qed.
 
+(* ---- a struct type identical to its own pointerified type: merging a layer
+   into the zero struct gives the layer itself ---- *)
+Definition self_field (t : ty) : Prop :=
+  ptrify_ty t = Some t -> supported t = true -> wf_ty t = true ->
+  forall lv, spine t lv = true -> stack_field t (zero t) [lv] = lv.
+
+Definition self_fields (fs : fields) : Prop :=
+  ptrify_fields fs = fs -> supported_fields fs = true -> wf_fields fs = true ->
+  forall lvs pre lpre, spine_fields fs lvs = true -> length pre = length lpre ->
+    fresh_for (field_names fs) pre -> nodup_names (field_names fs) = true ->
+    stack_fields fs (zero_fields fs) (pre ++ field_names fs) [lpre ++ lvs] = lvs.
+
+Definition self_ty (t : ty) : Prop :=
+  self_field t /\ match t with TStruct fs _ => self_fields fs | _ => True end.
+
+Lemma self_leaf lv : (match last_set [lv] with Some l => l | None => VNil end) = lv.
+Proof. cbn. destruct lv; reflexivity. Qed.
+
+Lemma self_ptrified : (forall t, self_ty t) /\ (forall fs, self_fields fs).
+Proof.
+  ty_cases.
+  - split; [|exact I]. intros H. cbn in H. inversion H.
+  - split; [|exact I]. intros H. cbn in H. inversion H.
+  - (* TPtr *) split; [|exact I]. destruct IH as [_ IHs].
+    intros Hp Hsup Hwf lv Hlv.
+    destruct t as [k0 n0|i0 p0|t0|t0 n0|n0 t0|k0 v0 n0|fs n0| | |];
+      try (cbn [stack_field zero]; unfold unwrap; cbn [wrapped]; apply self_leaf).
+    (* pointer to a struct identical to its pointerified form *)
+    cbn in Hp. inversion Hp as [[Hfs Hn]]. subst n0.
+    cbn [wf_ty] in Hwf. apply andb_true_iff in Hwf as [Hnd Hwf]. cbn [supported] in Hsup. rewrite Hfs in Hnd.
+    cbn in Hlv. cbn [stack_field zero].
+    destruct lv as [| | | | | |x| | | |]; try discriminate; [reflexivity|].
+    destruct x as [| | | | | | | | |lvs|]; try discriminate.
+    cbn [sub_layers flat_map app]. rewrite !Hfs.
+    specialize (IHs Hfs Hsup Hwf lvs [] [] Hlv eq_refl). cbn [app] in IHs.
+    rewrite IHs; [reflexivity|intros m _; reflexivity|exact Hnd].
+  - (* TSlice *) split; [|exact I]. intros _ _ _ lv _. cbn [stack_field zero]. unfold unwrap. cbn [wrapped]. apply self_leaf.
+  - split; [|exact I]. intros H. cbn in H. inversion H.
+  - (* TMap *) split; [|exact I]. intros _ _ _ lv _. cbn [stack_field zero]. unfold unwrap. cbn [wrapped]. apply self_leaf.
+  - (* TStruct *) split; [|exact IH]. intros H. cbn in H. inversion H.
+  - split; [|exact I]. intros _ H. discriminate.
+  - split; [|exact I]. intros H. discriminate.
+  - split; [|exact I]. intros H. discriminate.
+  - (* FNil *) intros _ _ _ lvs pre lpre Hl _ _ _. destruct lvs; [reflexivity|discriminate].
+  - (* FCons *) destruct IHt as [IHt _].
+    intros Hp Hsup Hwf lvs pre lpre Hl Hlen Hfresh Hnd.
+    destruct (self_ptrified_cons n tags anon t r Hp) as (Hom & Hpt & Hpr).
+    cbn in Hsup, Hwf. rewrite Hom in Hsup, Hwf. cbn [orb] in Hsup, Hwf.
+    apply andb_true_iff in Hsup as [Hsupt Hsupr]. apply andb_true_iff in Hwf as [Hwft Hwfr].
+    destruct lvs as [|lv lvs]; [discriminate|]. cbn in Hl. apply andb_true_iff in Hl as [Hlv Hlvs].
+    cbn [field_names nodup_names] in Hnd. apply andb_true_iff in Hnd as [Hnin Hnd]. apply negb_true_iff in Hnin.
+    assert (Hcf : is_chan_func t = false).
+    { destruct (is_chan_func t) eqn:E; [|reflexivity]. apply chan_func_ptrify in E. congruence. }
+    cbn [stack_fields zero_fields field_names map]. rewrite Hom, Hcf. cbn [orb].
+    assert (Hpre : name_in n pre = false) by (apply Hfresh; cbn; rewrite str_eqb_refl; reflexivity).
+    rewrite (by_name_skip n pre lpre _ _ Hpre Hlen), by_name_head.
+    rewrite (IHt Hpt Hsupt Hwft lv Hlv). f_equal.
+    specialize (IHr Hpr Hsupr Hwfr lvs (pre ++ [n]) (lpre ++ [lv]) Hlvs).
+    rewrite <- !app_assoc in IHr. cbn [app] in IHr. apply IHr; [rewrite !app_length; cbn; lia| |exact Hnd].
+    intros m Hm. rewrite name_in_app. cbn. rewrite orb_false_r.
+    rewrite (Hfresh m) by (cbn; rewrite Hm; apply orb_true_r). cbn.
+    destruct (str_eqb m n) eqn:E; [|reflexivity]. apply str_eqb_eq in E. subst m. congruence.
+Qed.
+
 Definition one_layer_field (t : ty) : Prop :=
   forall b lv pt, wf_ty t = true -> supported t = true -> ptrify_ty t = Some pt ->
     spine t b = true -> spine pt lv = true ->
@@ -161,8 +226,9 @@ Proof.
     destruct t as [k0 n0|i0 p0|t0|t0 n0|n0 t0|k0 v0 n0|fs n0| | |].
     7: { (* pointer to struct *)
       cbn in Hpt. inversion Hpt; subst pt. clear Hpt.
-      cbn [wf_ty] in Hwf. apply andb_true_iff in Hwf as [Hwf Hne]. apply andb_true_iff in Hwf as [Hnd Hwf].
-      cbn [supported] in Hsup. apply negb_true_iff in Hne.
+      pose proof Hwf as Hwf0. pose proof Hsup as Hsup0.
+      cbn [wf_ty] in Hwf. apply andb_true_iff in Hwf as [Hnd Hwf].
+      cbn [supported] in Hsup.
       cbn in Hb, Hlv.
       destruct lv as [| | | | | |x| | | |]; try discriminate.
       { (* unset *) cbn [overlay_field nilable_kind is_vnil andb].
@@ -172,8 +238,16 @@ Proof.
         split; [reflexivity|exact Hb]. }
       destruct x as [| | | | | | | | |lvs|]; try discriminate.
       destruct b as [| | | | | |bx| | | |]; try discriminate.
-      - (* base nil: allocate and merge into the zero struct *)
-        cbn [overlay_field nilable_kind is_vnil andb]. rewrite Hne.
+      - (* base nil *)
+        cbn [overlay_field nilable_kind is_vnil andb].
+        destruct (ty_eqb (TStruct fs n0) (TStruct (ptrify_fields fs) [])) eqn:Hne.
+        { (* identical types: the layer's pointer is assigned directly *)
+          apply ty_eqb_eq in Hne. injection Hne as Hfs Hn. subst n0.
+          assert (Hself : stack_field (TPtr (TStruct fs [])) VNil [VPtr (VStruct lvs)] = VPtr (VStruct lvs)).
+          { apply (proj1 (proj1 self_ptrified (TPtr (TStruct fs [])))); [cbn; rewrite <- Hfs; reflexivity|exact Hsup0|exact Hwf0|].
+            cbn. rewrite Hfs. exact Hlv. }
+          rewrite Hself. split; [reflexivity|]. cbn. rewrite Hfs. exact Hlv. }
+        (* different types: allocate and merge into the zero struct *)
         destruct (IHs (zero_fields fs) lvs [] [] Hwf Hsup (proj2 spine_zero fs) Hlv eq_refl) as [E S];
           [intros n _; reflexivity|exact Hnd|].
         rewrite E. split; [reflexivity|exact S].
